@@ -68,12 +68,17 @@ func judge(c Case, w *vkit.W) {
 			w.Fail(c, "round-trip-differs", fmt.Sprintf("UnmarshalBinary(%v) = %d-%d-%d, want %d-%d-%d", want, gy, int(gm), gd, c.Y, c.M, c.D))
 		}
 	case "bytes":
-		data := []byte(c.Data)
+		// the input is a window of a larger caller buffer: neither the window nor the bytes behind it may be written
+		data := w.Scratch(string(c.Data))
 		snapshot := append([]byte{}, data...)
 		got := sentinel
 		err := got.UnmarshalBinary(data)
 		if !bytes.Equal(data, snapshot) {
 			w.Fail(c, "input-modified", fmt.Sprintf("UnmarshalBinary changed its input %v -> %v", snapshot, data))
+		}
+		if tail := data[len(data) : len(data)+8]; !bytes.Equal(tail, []byte{0xEE, 0xEE, 0xEE, 0xEE, 0xEE, 0xEE, 0xEE, 0xEE}) {
+			w.Fail(c, "wrote-behind-input", fmt.Sprintf("UnmarshalBinary(%v) wrote behind the slice it was given (the caller's buffer continues there): %v", snapshot, tail))
+			w.Scratch("")
 		}
 		wantLen := len(data) == 7
 		wantVer := len(data) > 0 && data[0] == 1
@@ -236,6 +241,53 @@ func TestCheck(t *testing.T) {
 			}
 			judge(Case{Kind: "bytes", Data: ""}, w)
 			w.Eval(true)
+		})
+	})
+
+	r.Phase("C2: all lengths 0..1200 and lengths 7 + k*256, 7 + k*65536 with a valid first record (version 1, real date)", func() {
+		r.Serial(func(w *vkit.W) {
+			body := encode(2022, 8, 7)
+			lens := []int{}
+			for n := 0; n <= 1200; n++ {
+				lens = append(lens, n)
+			}
+			for k := 1; k <= 300; k++ {
+				lens = append(lens, 7+k*256)
+			}
+			lens = append(lens, 7+65536, 7+2*65536, 7+1<<24, 65535, 65536, 65543)
+			for _, n := range lens {
+				for _, fill := range []byte{0, 1, 7} {
+					b := bytes.Repeat([]byte{fill}, n)
+					copy(b, body)
+					judge(Case{Kind: "bytes", Data: vkit.B(b)}, w)
+					w.EvalRandom(vkit.HashU(uint64(n), uint64(fill), 77), true)
+				}
+			}
+		})
+	})
+
+	// Phase C3: consecutive decodes of years that agree in their low 8/16/24/28/... bits (a memo or table keyed by a
+	// truncated year would confuse them): 29 February of year y and of y +- 2^k, in both orders.
+	r.Phase("C3: alternating decodes of 29 February for years y and y +- 2^k (k = 2..30)", func() {
+		r.Serial(func(w *vkit.W) {
+			for _, y := range []int64{1900, 2000, 2023, 2024, 2100, -100, 0, 4, 268437356, 100, 1} {
+				for k := uint(2); k <= 30; k++ {
+					for _, sign := range []int64{1, -1} {
+						z := y + sign*(int64(1)<<k)
+						if z > 2147483647 || z < -2147483648 {
+							continue
+						}
+						for _, seq := range [][]int64{{y, z, y, z}, {z, y, z, y}, {z, z, y}, {y, y, z}} {
+							for _, yy := range seq {
+								for _, d := range []int{28, 29, 30} {
+									judge(Case{Kind: "bytes", Data: vkit.B(encode(yy, 2, d))}, w)
+									w.EvalRandom(vkit.HashU(uint64(yy), uint64(d), uint64(k), uint64(y)), true)
+								}
+							}
+						}
+					}
+				}
+			}
 		})
 	})
 
